@@ -77,6 +77,24 @@ func (w *World) verifyFunction(fn *ssa.Function, c *Contract) *Exec {
 		s.add('g', "false", g)
 		x.run(s)
 	}()
+	// a function whose contract does not allow a panic has the obligation
+	// "no path exits by panic" even when no such path exists today (then it is
+	// trivially discharged): a later change that adds a panicking path fails
+	// an obligation that used to hold instead of creating an unknown one
+	if c != nil && !c.MayPanic && !c.Trusted && len(x.errors) == 0 {
+		name := x.entryKey + "#safety:no-panic"
+		has := false
+		for _, g := range x.goals {
+			if g.name == name {
+				has = true
+				break
+			}
+		}
+		if !has && x.trivial[name] == 0 {
+			x.trivial[name]++
+			x.trivialMeta[name] = &Goal{name: name, kind: "safety", props: []string{"C14"}, info: "function exits by panic (no such path)"}
+		}
+	}
 	// every loop / call-site clause of the contract must have been bound to
 	// a loop / call site of the code
 	if c != nil && len(x.errors) == 0 {
